@@ -385,6 +385,11 @@ hwloc_calc_parse_range(const char *_string,
       amount = -1;
     } else {
       /* X-Y */
+      if (last < first) {
+	if (verbose >= 0)
+	  fprintf(stderr, "invalid range `%s', last index lower than first index\n", string);
+	return -1;
+      }
       amount = last-first+1;
     }
 
@@ -399,6 +404,10 @@ hwloc_calc_parse_range(const char *_string,
     } else if (end2 == end+1) {
       if (verbose >= 0)
 	fprintf(stderr, "missing width at `%s' in range at `%s'\n", end2, string);
+      return -1;
+    } else if (amount < 0) {
+      if (verbose >= 0)
+	fprintf(stderr, "invalid negative width in range at `%s'\n", string);
       return -1;
     }
 
